@@ -119,6 +119,13 @@ func (c *Config) Validate() error {
 	c.mu.RLock()
 	defer c.mu.RUnlock()
 
+	return c.validateLocked()
+}
+
+// validateLocked checks the configuration; the caller holds c.mu. Taking the
+// read lock a second time (as SaveManifest did through Validate) deadlocks as
+// soon as a writer (Update) is waiting between the two acquisitions.
+func (c *Config) validateLocked() error {
 	if c.Version <= 0 {
 		return fmt.Errorf("%w: invalid version %d", ErrInvalidConfig, c.Version)
 	}
@@ -223,7 +230,7 @@ func (c *Config) SaveManifest(dbPath string) error {
 	c.mu.RLock()
 	defer c.mu.RUnlock()
 
-	if err := c.Validate(); err != nil {
+	if err := c.validateLocked(); err != nil {
 		return err
 	}
 
